@@ -172,6 +172,8 @@ class FnTr:
             a = self.expr(e.left)
             if isinstance(e.right, ast.Constant) and e.right.value == 2 and a.kind == S:
                 return Val(S, "nmul %s %s" % (a.p(), a.p()), True)
+            if isinstance(e.right, ast.Constant) and e.right.value == 2 and a.kind[0] == "V":
+                return Val(a.kind, "vmul %s %s" % (a.p(), a.p()), True)
             raise Reject("%s: ** is accepted only as scalar ** 2" % _where(e))
         if type(e.op) not in SOPS:
             raise Reject("%s: operator %s is not accepted" % (_where(e), type(e.op).__name__))
@@ -272,6 +274,8 @@ class FnTr:
         return Val(T(*[i.kind for i in items]), "(" + ", ".join(i.text for i in items) + ")", True, items=items)
 
     def e_Compare(self, e):
+        if ast.unparse(e) in self.u.get("bool_exprs", {}):       # a test on an opaque attribute, declared as a boolean field
+            return self.field(self.u["bool_exprs"][ast.unparse(e)], e)
         if len(e.ops) != 1:
             raise Reject("%s: chained comparison" % _where(e))
         op, right = e.ops[0], e.comparators[0]
@@ -702,8 +706,8 @@ class FnTr:
     # ------------------------------------------------------------------ the function
     def translate(self):
         fn, fs = self.fn, self.fs
-        got = [a.arg for a in fn.args.args]
-        if got != list(fs["params"]) or (fn.args.vararg and not fs.get("allow_varargs")) or fn.args.kwonlyargs or (fn.args.kwarg and not fs.get("allow_kwargs")):
+        got = [a.arg for a in fn.args.args] + ([a.arg for a in fn.args.kwonlyargs] if fs.get("kwonly") else [])
+        if got != list(fs["params"]) or (fn.args.vararg and not fs.get("allow_varargs")) or (fn.args.kwonlyargs and not fs.get("kwonly")) or (fn.args.kwarg and not fs.get("allow_kwargs")):
             raise Reject("%s: parameters of %s are %s, expected %s" % (_where(fn), fn.name, got, list(fs["params"])))
         if fn.decorator_list:
             raise Reject("%s: decorator on %s" % (_where(fn), fn.name))
